@@ -158,7 +158,7 @@ def main():
             rels = [{"rel": "same_on_from", "x": 1 + int(bad), "y": k + 1, "k": (h + 1 if kind == "past" else 1)} for k in range(1 + int(bad), K)]
         for o in objs:
             o["factory"] = fac
-        cases.append(case(objs, evs, rels, kind=kind, bad=bad, skip=["evaluate.viol", "update.viol"], timeout=3))
+        cases.append(case(objs, evs, rels, kind=kind, bad=bad, skip=["evaluate.viol", "update.viol"], timeout=8))
     # ---- dense time: the same durations in different notations, default unit s / ms, stamps in the default unit
     dcases = []
     for i in range(n // 3):
@@ -185,7 +185,7 @@ def main():
         w = {v: gen_signal(rng, rng.choice([2, 3, 4, 5]), t0=0, end=end) for v in vs}
         evs = [ev_parse(k + 1) for k in range(K)] + [ev_ct("evaluate", w, k + 1) for k in range(K)]
         rels = [{"rel": "same_fn", "x": 1, "y": k + 1} for k in range(1, K)]
-        dcases.append(case(objs, evs, rels, kind="dense", bad=False, timeout=3))
+        dcases.append(case(objs, evs, rels, kind="dense", bad=False, timeout=8))
     dtr = runner.run_cases(dcases)
     dvs, dgen, ddist = core.validate("C08_dense", dtr, module="TraceCt")
     rep.add_traces(dtr, dvs, dgen, ddist, nontrivial_key=lambda c: str([o["text"] for o in c["objs"]]) + str(c["events"][-1]["w"]))
